@@ -50,6 +50,13 @@ UNBOUNDED_WINDOW = (0, 1, -1, 2, -2)
 CTX: Optional["Ctx"] = None
 
 
+def _decode_z3_string(s: str) -> str:
+    """z3 prints non-printable characters as \\u{hex}"""
+    import re
+
+    return re.sub(r"\\u\{([0-9a-fA-F]+)\}", lambda m: chr(int(m.group(1), 16)), s)
+
+
 def _key(t) -> str:
     return hashlib.blake2b(t.sexpr().encode(), digest_size=8).hexdigest()
 
@@ -444,6 +451,7 @@ class Ctx(BaseCtx):
         return z3.is_true(self.model.eval(t, model_completion=True))
 
     def branch(self, t) -> bool:
+        raw = t  # keys are taken from the unsimplified term: simplify() orders arguments by AST id, which varies
         t = z3.simplify(t)
         if z3.is_true(t):
             return True
@@ -453,7 +461,7 @@ class Ctx(BaseCtx):
         if i < len(self.prefix):
             d, closed, key = self.prefix[i]
             if self.check_keys and key is not None:
-                k = _key(t)
+                k = _key(raw)
                 if k != key:
                     raise Nondeterminism(
                         "replayed decision %d differs from the recorded one (%s)" % (i, t.sexpr()[:200])
@@ -461,7 +469,7 @@ class Ctx(BaseCtx):
             self.trace.append((d, closed, key))
             self._add(t if d else z3.Not(t))
             return d
-        key = _key(t) if self.check_keys else None
+        key = _key(raw) if self.check_keys else None
         cur = self._model_val(t)  # one side is feasible for free
         other = z3.Not(t) if cur else t
         both = self._check(other)
@@ -509,6 +517,8 @@ class Ctx(BaseCtx):
             val = m.eval(v, model_completion=True)
             if z3.is_int_value(val):
                 out[n] = val.as_long()
+            elif z3.is_string_value(val):
+                out[n] = _decode_z3_string(val.as_string())
             else:
                 out[n] = bool(z3.is_true(val))
         return out
